@@ -235,7 +235,11 @@ def policy(ctx: Context) -> None:
     # randomness only from the agent's own generator
     for c in calls_in(f.node):
         if isinstance(c.func, ast.Attribute) and c.func.attr in ("random", "choice", "integers", "uniform", "rand", "randint", "shuffle", "permutation"):
-            ctx.check(src(c.func.value) == "self.random_generator", "R3.own-generator", f"MABEpsilonGreedy.policy:draw:{c.func.attr}", "draws come from the agent's own generator",
+            from ..poly import single_assignment_env
+            recv_e = c.func.value
+            if isinstance(recv_e, ast.Name):
+                recv_e = single_assignment_env(f.node).get(recv_e.id, recv_e)  # `generator = self.random_generator` bound once
+            ctx.check(src(recv_e) == "self.random_generator", "R3.own-generator", f"MABEpsilonGreedy.policy:draw:{c.func.attr}", "draws come from the agent's own generator",
                       f"`{src(c)}` does not draw from the agent's own generator", f, c)
     # valid indices: table sizes follow n_actions
     init = ctx.func(f"{AG}.__init__")
